@@ -10,14 +10,20 @@
    a call of the driver into the detector / the processor, a hand-over on one of the three channels
    (downloadedCh, ReorgedBlock, ReorgProcessed), or a move of the environment (Mine, Finalize, Fork, Restart).
 
-   Chain.  Blocks 1..tip; a fork replaces a suffix b..tip (same length), forks are numbered 1..MaxForks and fp[k] is
+   Chain.  Blocks 1..tip; a fork replaces a suffix b..tip and adds one block, forks are numbered 1..MaxForks and fp[k] is
    the fork point of fork k (fp[0] = 1).  The version of a block = the number of the last fork that replaced it (or that
    was current when it was mined), so <<n, version>> identifies a block hash, and the version of an ancestor b of a
    block with version v is max{ j <= v : fp[j] <= b }.  H[v][n] \in {0,1}: block n in version v carries watched logs
    (the replay decorates: several logs, unwatched topics, other addresses, removed logs).
 
    Defect switches (DESIGN section 6): AtomicRemove = FALSE is the code as written (F6: the range removal runs after the
-   driver was released); RetryLimit is MaxRetryCountBlockHashMismatch (5 in the code; F7 needs RetryLimit+1 forks).
+   driver was released; EVMSyncF6probe.cfg, RewindLow violated); RetryLimit is MaxRetryCountBlockHashMismatch (5 in the
+   code; F7 needs RetryLimit+1 forks inside one range query; EVMSyncF7probe.cfg with RetryLimit = 0, Faithful violated).
+   The explored configurations use AtomicRemove = TRUE and fewer than RetryLimit+1 forks; both counterexamples are
+   replayed on the real code by checks/C06.py.
+
+   Configurations: EVMSyncC05*.cfg / EVMSyncC06*.cfg exhaustive; EVMSyncGen*.cfg edge-cover export (ACTION_CONSTRAINT Dump);
+   EVMSyncSim*.cfg random walks (tlc -simulate, biased by NoIdle / FinLag / four fork-content patterns).
 *)
 EXTENDS Integers, Sequences, FiniteSets, TLC, Json
 
